@@ -134,6 +134,9 @@ def build_instrument(spec):
     from mingus.containers.instrument import Instrument, MidiInstrument
     if spec is None:
         return None
+    if spec["kind"] == "percussion":
+        from mingus.containers.instrument import MidiPercussionInstrument
+        return MidiPercussionInstrument()  # a drum kit: no program number of its own; notes keep the channels they carry
     if spec["kind"] == "midi" and spec.get("duck"):
         i = Instrument()
         i.instrument_nr = spec["nr"]
@@ -154,8 +157,11 @@ def build_track(td, instrument=None):
     t = Track(instrument if instrument is not None else build_instrument(td["instr"]))
     if td.get("name") is not None:
         t.name = td["name"]
+    built = []
     for bd in td["bars"]:
-        t.add_bar(build_bar(bd))
+        b = built[bd["same_as"]] if bd.get("same_as") is not None and bd["same_as"] < len(built) else build_bar(bd)
+        built.append(b)
+        t.add_bar(b)
     return t
 
 
